@@ -134,7 +134,10 @@ var variants = map[string]func(c Case) built{
 
 var moduleVariants = []string{"mod-named", "mod-plain", "mod-kinds", "mod-imports-entry", "mod-self", "cycle", "host-error", "not-found", "mod-host-error", "mod-not-found"}
 
-var chainRe = regexp.MustCompile(`^chain-([0-9]+)$`)
+var (
+	chainRe   = regexp.MustCompile(`^chain-([0-9]+)$`)
+	diamondRe = regexp.MustCompile(`^diamond-([0-9]+)$`)
+)
 
 // build turns a case into the module set of the request. Variant "chain-N": main imports m0, m0
 // imports m1, ... and the last module of the chain is the text.
@@ -153,6 +156,25 @@ func build(c Case) (built, bool) {
 			mods[fmt.Sprintf("m%d", i)] = fmt.Sprintf("import { h%d } from m%d;\npub fn h%d() { h%d(); }\n", i+1, i+1, i, i+1)
 		}
 		mods[fmt.Sprintf("m%d", n)] = c.Text
+		return built{mods: mods, asModule: true}, true
+	}
+	// "diamond-N": N layers of two modules; both modules of a layer import both modules of the
+	// next layer (an acyclic graph with 2^N paths); the text is both modules of the last layer.
+	if m := diamondRe.FindStringSubmatch(c.Variant); m != nil {
+		n := 0
+		fmt.Sscan(m[1], &n)
+		if n < 1 || n > 1000 {
+			return built{}, false
+		}
+		mods := map[string]string{}
+		mods["main"] = "import { f } from d0a;\nimport { g } from d0b;\nfn main() { f(); g(); }\n"
+		for i := 0; i < n; i++ {
+			body := fmt.Sprintf("import { f } from d%da;\nimport { g } from d%db;\n", i+1, i+1)
+			mods[fmt.Sprintf("d%da", i)] = body + "pub fn f() {}\n"
+			mods[fmt.Sprintf("d%db", i)] = body + "pub fn g() {}\n"
+		}
+		mods[fmt.Sprintf("d%da", n)] = c.Text
+		mods[fmt.Sprintf("d%db", n)] = c.Text
 		return built{mods: mods, asModule: true}, true
 	}
 	return built{}, false
@@ -478,7 +500,7 @@ func accountLexParse(c Case, pi parseInfo, f *pk.Failure, depthHint int) {
 func accountAnalyze(c Case, resp *sb.Response, f *pk.Failure, tokensOK, depthHint int) {
 	pk.Eval()
 	pk.Class("analyze")
-	pk.Class("variant:" + chainRe.ReplaceAllString(c.Variant, "chain"))
+	pk.Class("variant:" + diamondRe.ReplaceAllString(chainRe.ReplaceAllString(c.Variant, "chain"), "diamond"))
 	if c.NoMain {
 		pk.Class("nomain")
 	}
